@@ -62,7 +62,7 @@ def main():
         ids = [i for i in ids if i in args]
     n_bad = 0
     results = []
-    with cf.ThreadPoolExecutor(4) as ex:
+    with cf.ThreadPoolExecutor(int(os.environ.get("REFAC_JOBS", "4"))) as ex:
         for rid, status, lines in ex.map(one, ids):
             print("%-10s %s" % (rid, status), flush=True)
             for l in lines:
